@@ -49,9 +49,9 @@ theorem usages_eq (p : Params) (hs : p.set = false) (us : List RecUsage) :
         Fields.length, finish, seqTag, usageEnc, intF, Gen.T_RatingGroupId, Gen.T_NetworkFunctionName, hs, hc, stringTagOf]
     rw [h]
 
-def usageListEnc (us : List RecUsage) : Bytes :=
+def usageListEnc (emptyList : Bool) (us : List RecUsage) : Bytes :=
   match us with
-  | [] => []
+  | [] => if emptyList then tlv 2 true 5 [] else []
   | _ => tlv 2 true 5 (usagesEnc us)
 
 def optF (cls : Nat) (k : Nat) : Option Bytes → Bytes
@@ -109,7 +109,7 @@ def recordContent (e : RecEnv) (r : Record) : Bytes :=
   intF 0 200 ++ (tlv 2 false 1 e.nfId ++
   (tlv 2 true 2 (tlv 2 false 0 (intBytes 1) ++ (tlv 2 false 1 r.subData ++ [])) ++
   (nfiEnc e r ++
-  (usageListEnc r.usage ++
+  (usageListEnc e.emptyList r.usage ++
   (tlv 2 false 6 e.openTime ++ (intF 7 0 ++
   ((match r.rsn with | some n => intF 8 n | none => []) ++
   (intF 9 r.cause ++ (intF 11 r.lsn ++
@@ -127,8 +127,9 @@ theorem recordBytes_eq (e : RecEnv) (r : Record) : recordBytes e r = .ok (record
   cases hus : r.usage with
   | nil =>
     cases hr : r.rsn <;> cases hsid : r.sid <;> cases hsv : e.svcSpec <;> cases hpd : e.pdu <;> cases hrg : e.registration <;>
-    simp [Gen.T_CHFRecord, Gen.T_ChargingRecord, topParams, Vals.ofList, nils, marshal, marshalAlt, marshalFields, nilable,
-      isNil_nil, isNil_int, isNil_bytes, isNil_str, isNil_list, isNil_struct, Fields.length, finish, intF, optF, optBytes, usageListVal, usageListEnc,
+    cases hel : e.emptyList <;>
+    simp [marshalElems, seqTag, Gen.T_CHFRecord, Gen.T_ChargingRecord, topParams, Vals.ofList, nils, marshal, marshalAlt, marshalFields, nilable,
+      isNil_nil, isNil_int, isNil_bytes, isNil_str, isNil_list, isNil_struct, Fields.length, finish, intF, optF, optBytes, usageListVal, usageListEnc, rsnVal,
       Gen.T_RecordType, Gen.T_NetworkFunctionName, Gen.T_SubscriptionID, Gen.T_SubscriptionIDType,
       Gen.T_TimeStamp, Gen.T_CallDuration, Gen.T_CauseForRecClosing, Gen.T_LocalSequenceNumber,
       Gen.T_ChargingSessionIdentifier, Gen.T_ChargingID, hnfi, pdu_eq, reg_eq, pduVal_nil, pduVal_some, regVal_false, regVal_true,
@@ -137,7 +138,7 @@ theorem recordBytes_eq (e : RecEnv) (r : Record) : recordBytes e r = .ok (record
     rw [hus] at hu
     cases hr : r.rsn <;> cases hsid : r.sid <;> cases hsv : e.svcSpec <;> cases hpd : e.pdu <;> cases hrg : e.registration <;>
     simp [Gen.T_CHFRecord, Gen.T_ChargingRecord, topParams, Vals.ofList, nils, marshal, marshalAlt, marshalFields, nilable,
-      isNil_nil, isNil_int, isNil_bytes, isNil_str, isNil_list, isNil_struct, Fields.length, finish, intF, optF, optBytes, usageListVal, usageListEnc,
+      isNil_nil, isNil_int, isNil_bytes, isNil_str, isNil_list, isNil_struct, Fields.length, finish, intF, optF, optBytes, usageListVal, usageListEnc, rsnVal,
       Gen.T_RecordType, Gen.T_NetworkFunctionName, Gen.T_SubscriptionID, Gen.T_SubscriptionIDType,
       Gen.T_TimeStamp, Gen.T_CallDuration, Gen.T_CauseForRecClosing, Gen.T_LocalSequenceNumber,
       Gen.T_ChargingSessionIdentifier, Gen.T_ChargingID, hnfi, pdu_eq, reg_eq, pduVal_nil, pduVal_some, regVal_false, regVal_true,
@@ -217,18 +218,20 @@ theorem chgLen (us : List RecUsage) :
   rw [chgBytesR_eq, lenOf, tlv_length_low _ _ _ _ (by decide)]
 
 /-- length of the members other than the usage list -/
-def fixedLen (e : RecEnv) (r : Record) : Nat := (recordContent e { r with usage := [] }).length
+def fixedLen (e : RecEnv) (r : Record) : Nat :=
+  (recordContent e { r with usage := [] }).length - (usageListEnc e.emptyList []).length
 
-theorem usageListEnc_length (us : List RecUsage) :
-    (usageListEnc us).length = if us = [] then 0 else 1 + lenLen (usagesEnc us).length + (usagesEnc us).length := by
+theorem usageListEnc_length (el : Bool) (us : List RecUsage) :
+    (usageListEnc el us).length =
+      if us = [] then (if el then 2 else 0) else 1 + lenLen (usagesEnc us).length + (usagesEnc us).length := by
   cases us with
-  | nil => simp [usageListEnc]
+  | nil => cases el <;> simp [usageListEnc]; decide
   | cons u r => simp only [usageListEnc, tlv_length_low _ _ _ _ (show 5 ≤ 30 by decide)]; simp
 
 theorem recordContent_length (e : RecEnv) (r : Record) :
-    (recordContent e r).length = fixedLen e r + (usageListEnc r.usage).length := by
+    (recordContent e r).length = fixedLen e r + (usageListEnc e.emptyList r.usage).length := by
   unfold fixedLen recordContent nfiEnc
-  simp only [List.length_append, usageListEnc, List.length_nil]
+  simp only [List.length_append]
   omega
 
 theorem recordLen (e : RecEnv) (r : Record) :
@@ -258,8 +261,9 @@ theorem append_size_bound (e : RecEnv) (r : Record) (us : List Usage) (hne : us 
     generalize (usagesEnc (toRecUsage us)).length = N at *
     generalize fixedLen e r = F at *
     have h1 := lenLen_spec F
+    have h1' := lenLen_spec (F + 2)
     have h2 := lenLen_spec (F + (1 + lenLen N + N))
-    omega
+    cases e.emptyList <;> simp only [Bool.false_eq_true, if_false, if_true, Nat.add_zero] at * <;> omega
   · simp only [hu, if_false] at *
     generalize (usagesEnc r.usage).length = U at *
     generalize (usagesEnc (toRecUsage us)).length = N at *
